@@ -240,8 +240,26 @@ impl Ctx {
 				}
 			}
 		}
+		// ownership events (C16): only for non-test functions that touch an ownership-sensitive primitive
+		let mut own = String::new();
+		if let (Some(b), false) = (body, test_only) {
+			let mut v = OwnEvents { evs: Vec::new() };
+			v.visit_block(b);
+			if v.evs.iter().any(|(n, _)| own_sensitive(n)) {
+				let items: Vec<String> = v
+					.evs
+					.iter()
+					.map(|(n, a)| {
+						let i = self.syms.get(&format!("ev:{n}"));
+						let j = if a.is_empty() { 0 } else { self.syms.get(&format!("op:{a}")) };
+						format!("({i}, {j})")
+					})
+					.collect();
+				own = format!(", own := {}", list(&items));
+			}
+		}
 		format!(
-			"{{ name := {name}, vis := {vis}, isUnsafe := {}, isConst := {}, generics := {gens}, wheres := {wheres}, recv := {recv}, params := {}, ret := {ret}, callees := {:?}, testOnly := {test_only} }}",
+			"{{ name := {name}, vis := {vis}, isUnsafe := {}, isConst := {}, generics := {gens}, wheres := {wheres}, recv := {recv}, params := {}, ret := {ret}, callees := {:?}, testOnly := {test_only}{own} }}",
 			sig.unsafety.is_some(),
 			sig.constness.is_some(),
 			list(&params),
@@ -294,6 +312,60 @@ impl<'ast> Visit<'ast> for Calls {
 			self.names.push(format!("{}{{}}", s.ident));
 		}
 		syn::visit::visit_expr_struct(self, e);
+	}
+}
+
+/// ownership-sensitive primitives: anything that can make a value be dropped twice, never, or
+/// be read without being initialised, in code that the borrow checker accepts
+fn own_sensitive(name: &str) -> bool {
+	let last = name.rsplit("::").next().unwrap_or(name);
+	let qual = name.contains("::");
+	matches!(
+		last,
+		"forget" | "from_raw" | "from_raw_parts" | "from_raw_parts_mut" | "into_raw" | "into_raw_parts" | "leak" | "drop_in_place"
+			| "assume_init" | "assume_init_read" | "assume_init_drop" | "assume_init_mut" | "assume_init_ref" | "uninit" | "uninit_array"
+			| "zeroed" | "transmute" | "transmute_copy" | "set_len" | "copy_nonoverlapping" | "read_unaligned" | "read_volatile"
+			| "write_unaligned" | "write_volatile" | "write_bytes" | "ManuallyDrop" | "MaybeUninit"
+	) || (qual && name.starts_with("ptr::") && matches!(last, "read" | "write" | "copy" | "replace" | "swap"))
+		|| name.starts_with("ManuallyDrop::")
+		|| name.starts_with("MaybeUninit::")
+}
+
+fn squash(ts: TokenStream) -> String {
+	ts.to_string().chars().filter(|c| !c.is_whitespace()).collect()
+}
+
+/// the calls of a body in evaluation order (operands before the call), each with its receiver or
+/// first argument as text; `for` loops are bracketed by ("for", "<pat>in<expr>") … ("endfor", "")
+struct OwnEvents {
+	evs: Vec<(String, String)>,
+}
+impl<'ast> Visit<'ast> for OwnEvents {
+	fn visit_expr_method_call(&mut self, e: &'ast syn::ExprMethodCall) {
+		syn::visit::visit_expr_method_call(self, e);
+		self.evs.push((e.method.to_string(), squash(e.receiver.to_token_stream())));
+	}
+	fn visit_expr_call(&mut self, e: &'ast syn::ExprCall) {
+		syn::visit::visit_expr_call(self, e);
+		if let syn::Expr::Path(p) = &*e.func {
+			let segs: Vec<String> = p.path.segments.iter().map(|s| s.ident.to_string()).collect();
+			let n = if segs.len() >= 2 { segs[segs.len() - 2..].join("::") } else { segs.join("::") };
+			let a = e.args.first().map(|a| squash(a.to_token_stream())).unwrap_or_default();
+			self.evs.push((n, a));
+		}
+	}
+	fn visit_expr_for_loop(&mut self, e: &'ast syn::ExprForLoop) {
+		self.visit_expr(&e.expr);
+		self.evs.push(("for".into(), format!("{}in{}", squash(e.pat.to_token_stream()), squash(e.expr.to_token_stream()))));
+		self.visit_block(&e.body);
+		self.evs.push(("endfor".into(), String::new()));
+	}
+	fn visit_macro(&mut self, m: &'ast syn::Macro) {
+		let mut names = Vec::new();
+		scan_tokens(m.tokens.clone(), &mut names);
+		for n in names {
+			self.evs.push((n, "macro".into()));
+		}
 	}
 }
 
@@ -594,6 +666,12 @@ fn main() {
 	] {
 		c.syms.get(n);
 	}
+	// the call and operand names HLV/Static/OwnRules.lean mentions (C16 ownership records)
+	for n in [
+		"ev:Box::from_raw", "ev:Box::leak", "ev:Box::new", "ev:MaybeUninit::uninit", "ev:UnsafeCell::new", "ev:Vec::new", "ev:as_ref", "ev:assume_init", "ev:cast", "ev:cast_const", "ev:cast_mut", "ev:clear", "ev:data_mut", "ev:data_ref", "ev:drop", "ev:endfor", "ev:enumerate", "ev:for", "ev:get", "ev:get_mut", "ev:get_ptrs", "ev:guard", "ev:into_inner", "ev:into_iter", "ev:iter_mut", "ev:map", "ev:mem::forget", "ev:mem::transmute", "ev:ptr::drop_in_place", "ev:read_guard", "ev:sort_by_key", "ev:unwrap_unchecked", "ev:write", "op:&mutself.locks", "op:(i,lock)inself.into_iter().enumerate()", "op:(i,lock)inself.iter_mut().enumerate()", "op:boxed", "op:e", "op:g", "op:guards", "op:guards[0]", "op:guards[i]", "op:iin0..N", "op:lock", "op:locks", "op:self", "op:self.data.cast_mut()", "op:self.locks", "op:self[0]", "op:self[i]",
+	] {
+		c.syms.get(n);
+	}
 	// follow the module tree from lib.rs (files not declared with `mod` are not part of the crate)
 	fn load(c: &mut Ctx, file: &std::path::Path, mod_dir: &std::path::Path, mod_pub: bool) {
 		let text = match std::fs::read_to_string(file) {
@@ -644,11 +722,15 @@ fn main() {
 			.chars()
 			.map(|ch| if ch.is_ascii_alphanumeric() || ch == '_' { ch } else if ch == '\'' { 'L' } else if ch == '!' { 'M' } else { 'X' })
 			.collect();
+		if n.starts_with("ev:") || n.starts_with("op:") {
+			writeln!(o, "def «{}» : Nat := {}", n.replace('»', ")"), i + 2).unwrap();
+			continue;
+		}
 		let id = if n.starts_with('\'') { format!("lt_{}", &id[1..]) } else if n.ends_with('!') { format!("mac_{}", &id[..id.len() - 1]) } else if n.ends_with("{}") { format!("ctor_{}", &id[..id.len() - 2]) } else if n.chars().next().map(|c| c.is_ascii_digit()).unwrap_or(false) { format!("f{id}") } else { id };
 		writeln!(o, "def «{id}» : Nat := {}", i + 2).unwrap();
 	}
 	writeln!(o, "end Sym\n").unwrap();
-	let names: Vec<String> = c.syms.order.iter().enumerate().map(|(i, n)| format!("({}, \"{}\")", i + 2, n)).collect();
+	let names: Vec<String> = c.syms.order.iter().enumerate().map(|(i, n)| format!("({}, \"{}\")", i + 2, n.replace('\\', "/").replace('"', "'"))).collect();
 	writeln!(o, "def symNames : List (Nat × String) := {}\n", list(&names)).unwrap();
 	let emit = |o: &mut String, name: &str, ty: &str, items: &[String]| {
 		// one definition per item keeps elaboration fast; the table is their list
